@@ -146,6 +146,10 @@ def sweep(ctx, quick):
                 scheds.append(("init", list(names), nt, 0))
             for sd in ([1, 7] if quick else [1, 2, 3, 5, 7, 11, 13, 17]):
                 scheds.append(("init", list(reversed(names)), 2, sd))
+            if inc_dirs:
+                # what is found first in a collection of directories must not depend on the hash seed: more seeds for these workspaces
+                for sd in range(4, 12):
+                    scheds.append(("init", list(names), 1, sd))
             for pm in perms[: (4 if quick else 24)]:
                 scheds.append(("open", list(pm), 1, 0))
             with ThreadPoolExecutor(max_workers=8) as ex:
